@@ -8,7 +8,6 @@ From Frugal.proofs Require Import TwoHop UnknownProofs.
 From Frugal Require Import Unknown.
 From Frugal Require Import DisciplineChecks.
 From Frugal.proofs Require Import GenPools.
-From Frugal.proofs Require Import GenDesc.
 Import ListNotations.
 
 (* after decoding a well-formed message, the holder is the concatenation, in message order, of
@@ -123,6 +122,3 @@ Proof. split; [exact dec_params_ok_holds | exact tables_ok_holds]. Qed.
 Theorem C11_model_assumptions : pools_ok = true.
 Proof. exact pools_ok_holds. Qed.
 
-(* the descriptor construction of desc.go reads as the model assumes (DisciplineChecks.desc_ok) *)
-Theorem C11_descriptor_shape : desc_ok = true.
-Proof. exact desc_ok_holds. Qed.
